@@ -297,6 +297,7 @@ def run(ctx):
     from .simrun import run_scenarios
     run_scenarios(ctx, F.fam_ping(ctx.rng, 400 if ctx.thorough else 70), {"C15", "PANIC"}, "ping")
     run_scenarios(ctx, F.fam_lead(ctx.rng, 100 if ctx.thorough else 12), {"C15", "PANIC"}, "lead")
+    run_scenarios(ctx, F.fam_lead_wave(ctx.rng, 400 if ctx.thorough else 50), {"C15", "PANIC"}, "lead_wave")
 
     ctx.cov["exhaustive"] = False
     ctx.cov["rule"] = ("windows: for every lead k in -7..=7 EVERY pair (local sum, remote sum) of the steady bands "
